@@ -135,7 +135,8 @@ Definition set_dict_item (l : nat) (k : str) (y : val) : H unit :=
 
    `fx` selects the tree the model describes:
      fx = false  the pinned tree (the faithful model, bugs included);
-     fx = true   the tree with fixes/C08-container-below-tuple-shared.patch (recreate_branches also
+     fx = true   the current tree: /repo ce28ec8 (adapt_typehints copies a list/dict before adapting its items), and
+                 fixes/C08-container-below-tuple-shared.patch (recreate_branches also
                  rebuilds plain tuples: `elif type(data) is tuple: tuple(recreate_branches(v) ...)`)
                  and fixes/C08-parse-object-adapts-in-place.patch (parse_object hands
                  recreate_branches(cfg_obj) to _apply_actions) applied. *)
@@ -192,7 +193,7 @@ Definition seq_items (v : val) : H (list val) :=
 Definition finish (m : mode) (ys : list val) : H val :=
   match m with Deser => hret (VTup ys) | Ser => halloc (CList ys) end.
 
-Fixpoint adapt (m : mode) (t : ty) (v : val) : H val :=
+Fixpoint adapt (fx : bool) (m : mode) (t : ty) (v : val) : H val :=
   match t with
   | TInt => match v with
             | VInt _ => hret v
@@ -203,18 +204,25 @@ Fixpoint adapt (m : mode) (t : ty) (v : val) : H val :=
   | TOpt t' =>                               (* Union[t', None]: NoneType is tried first, then t' *)
       match v with
       | VNone => hret VNone
-      | _ => adapt m t' v
+      | _ => adapt fx m t' v
       end
   | TList t' =>
       match v with
       | VRef l => c <- hread v ;;
                   match c with
-                  | CList xs => list_loop (adapt m t') l 0 xs ;;; hret v
+                  | CList xs =>
+                      if fx then                  (* /repo ce28ec8: `else: val = list(val)` — the items are adapted in a copy *)
+                        r <- halloc (CList xs) ;;
+                        match r with
+                        | VRef l' => list_loop (adapt fx m t') l' 0 xs ;;; hret r
+                        | _ => hfail
+                        end
+                      else list_loop (adapt fx m t') l 0 xs ;;; hret v
                   | _ => hfail
                   end
       | VTup xs => r <- halloc (CList xs) ;;  (* Iterable that is not a list: val = list(val) *)
                    match r with
-                   | VRef l => list_loop (adapt m t') l 0 xs ;;; hret r
+                   | VRef l => list_loop (adapt fx m t') l 0 xs ;;; hret r
                    | _ => hfail
                    end
       | _ => hfail
@@ -223,7 +231,14 @@ Fixpoint adapt (m : mode) (t : ty) (v : val) : H val :=
       match v with
       | VRef l => c <- hread v ;;
                   match c with
-                  | CDict kvs => dict_loop (adapt m t') l kvs ;;; hret v
+                  | CDict kvs =>
+                      if fx then                  (* /repo ce28ec8: `else: val = dict(val)` *)
+                        r <- halloc (CDict kvs) ;;
+                        match r with
+                        | VRef l' => dict_loop (adapt fx m t') l' kvs ;;; hret r
+                        | _ => hfail
+                        end
+                      else dict_loop (adapt fx m t') l kvs ;;; hret v
                   | _ => hfail
                   end
       | _ => hfail
@@ -231,13 +246,13 @@ Fixpoint adapt (m : mode) (t : ty) (v : val) : H val :=
   | TTup1 t1 =>
       xs <- seq_items v ;;
       match xs with
-      | [x] => y <- adapt m t1 x ;; finish m [y]
+      | [x] => y <- adapt fx m t1 x ;; finish m [y]
       | _ => hfail
       end
   | TTup2 t1 t2 =>
       xs <- seq_items v ;;
       match xs with
-      | [x1; x2] => y1 <- adapt m t1 x1 ;; y2 <- adapt m t2 x2 ;; finish m [y1; y2]
+      | [x1; x2] => y1 <- adapt fx m t1 x1 ;; y2 <- adapt fx m t2 x2 ;; finish m [y1; y2]
       | _ => hfail
       end
   end.
@@ -337,18 +352,18 @@ Definition chdir_region {A} (body : M A) : M A := bracket G_PATHDIR 1 (bracket G
    _check_type (typehints.py:554-611) = parse_value_or_config + `with change_to_path_dir(None)` +
    adapt_typehints + the retry with the original string.  On the modelled string domain (strings
    are canonical decimals or plain words, never YAML containers) the load-then-retry dance returns
-   what adapt returns when it is given the original value, so it is modelled as `adapt Deser`. *)
-Definition check_value_key (lenient : bool) (d : decl) (x : val) : M val :=
+   what adapt returns when it is given the original value, so it is modelled as `adapt fx Deser`. *)
+Definition check_value_key (fx : bool) (lenient : bool) (d : decl) (x : val) : M val :=
   match x, lenient with
   | VNone, true => ret VNone
-  | _, _ => bracket G_PARENT 1 (bracket G_PATHDIR 0 (lift (adapt Deser (d_ty d) x)))
+  | _, _ => bracket G_PARENT 1 (bracket G_PATHDIR 0 (lift (adapt fx Deser (d_ty d) x)))
   end.
 
 Definition is_vstr (v : val) : bool := match v with VStr _ => true | _ => false end.
 
 (* ---- _apply_actions (_core.py:1319-1379) on a flat namespace object `cfg` (NOT copied: a
    Namespace argument is used as it is); only_str = the skip_fn of add_sub_defaults. *)
-Definition apply_actions (p : parser) (only_str : bool) (cfg : val) : M unit :=
+Definition apply_actions (fx : bool) (p : parser) (only_str : bool) (cfg : val) : M unit :=
   kvs <-- lift (ns_items cfg) ;;
   miter (fun kv : str * val =>
            let k := fst kv in
@@ -361,7 +376,7 @@ Definition apply_actions (p : parser) (only_str : bool) (cfg : val) : M unit :=
                | Some x =>
                    if only_str && negb (is_vstr x) then ret tt
                    else
-                     y <-- bracket G_PARENT 1 (bracket G_LENIENT 1 (check_value_key true d x)) ;;
+                     y <-- bracket G_PARENT 1 (bracket G_LENIENT 1 (check_value_key fx true d x)) ;;
                      lift (ns_set cfg k y)          (* cfg[action_dest] = value *)
                end
            end) kvs.
@@ -371,7 +386,7 @@ Definition apply_actions (p : parser) (only_str : bool) (cfg : val) : M unit :=
 Definition get_defaults (fx : bool) (p : parser) : M val :=
   kvs <-- lift (hmap (fun d => y <- clone fx FUEL (d_dflt d) ;; hret (d_key d, y)) p) ;;
   cfg <-- lift (halloc (CNs kvs)) ;;
-  bracket G_SUBDEFAULTS 1 (apply_actions p true cfg) ;;;;
+  bracket G_SUBDEFAULTS 1 (apply_actions fx p true cfg) ;;;;
   ret cfg.
 
 (* ---- merge_config (_core.py:1381-1397): clone both, update, (no append keys in the space) *)
@@ -394,14 +409,14 @@ Definition validate (fx : bool) (p : parser) (cfg : val) : M unit :=
              | None => fail
              | Some d => match snd kv with
                          | VNone => ret tt
-                         | x => check_value_key false d x ;;;; ret tt
+                         | x => check_value_key fx false d x ;;;; ret tt
                          end
              end) kvs).
 
 (* ---- _parse_common (_core.py:337-389): add_sub_defaults under lenient_check, validate under
    parent_parser; default_meta is on, so no strip_meta at the end. *)
 Definition parse_common (fx : bool) (p : parser) (cfg : val) : M val :=
-  bracket G_LENIENT 1 (bracket G_SUBDEFAULTS 1 (apply_actions p true cfg)) ;;;;
+  bracket G_LENIENT 1 (bracket G_SUBDEFAULTS 1 (apply_actions fx p true cfg)) ;;;;
   bracket G_PARENT 1 (validate fx p cfg) ;;;;
   ret cfg.
 
@@ -416,12 +431,12 @@ Definition ns_of_arg (arg : val) : M val :=
   end.
 Definition parse_object_tail (fx : bool) (p : parser) (cfg a : val) : M val :=
   lift (clone fx FUEL cfg) ;;;;                     (* prev_cfg = prev_cfg.clone() *)
-  apply_actions p false a ;;;;
+  apply_actions fx p false a ;;;;
   merged <-- merge_config fx a cfg ;;
   parse_common fx p merged.
 Definition parse_object (fx : bool) (p : parser) (arg0 : val) : M val :=
   cfg <-- get_defaults fx p ;;
-  apply_actions p false cfg ;;;;
+  apply_actions fx p false cfg ;;;;
   arg <-- (if fx then lift (clone fx FUEL arg0) else ret arg0) ;;
   a <-- ns_of_arg arg ;;
   parse_object_tail fx p cfg a.
@@ -448,7 +463,7 @@ Definition parse_string (fx : bool) (p : parser) (cells : list cell) (root : val
           d <-- lift (load_content cells root) ;;
           c <-- lift (hread d) ;;
           match c with
-          | CDict kvs => a <-- lift (halloc (CNs kvs)) ;; apply_actions p false a ;;;; ret a
+          | CDict kvs => a <-- lift (halloc (CNs kvs)) ;; apply_actions fx p false a ;;;; ret a
           | _ => fail
           end) ;;
   base <-- get_defaults fx p ;;
@@ -460,7 +475,7 @@ Definition parse_path (fx : bool) (p : parser) (cells : list cell) (root : val) 
   chdir_region (parse_string fx p cells root).
 
 (* ---- dump (_core.py:754-833) *)
-Definition dump_cleanup (p : parser) (skipval : bool) (c : val) : M unit :=
+Definition dump_cleanup (fx : bool) (p : parser) (skipval : bool) (c : val) : M unit :=
   miter (fun d : decl =>
            kvs <-- lift (ns_items c) ;;
            match aget (d_key d) kvs with
@@ -468,8 +483,8 @@ Definition dump_cleanup (p : parser) (skipval : bool) (c : val) : M unit :=
            | Some VNone => lift (ns_del c (d_key d))           (* skip_none: cfg.pop(dest) *)
            | Some x =>
                y <-- bracket G_PARENT 1 (
-                       if skipval then catch (lift (adapt Ser (d_ty d) x)) (ret x)   (* suppress(ValueError) *)
-                       else lift (adapt Ser (d_ty d) x)) ;;
+                       if skipval then catch (lift (adapt fx Ser (d_ty d) x)) (ret x)   (* suppress(ValueError) *)
+                       else lift (adapt fx Ser (d_ty d) x)) ;;
                lift (ns_set c (d_key d) y)                     (* cfg.update(value, action_dest) *)
            end) p.
 
@@ -477,7 +492,7 @@ Definition dump (fx : bool) (p : parser) (skipval : bool) (cfg : val) : M unit :
   c <-- lift (strip_meta fx cfg) ;;
   bracket G_LOADMODE 1 (
     (if skipval then ret tt else validate fx p c) ;;;;
-    dump_cleanup p skipval c ;;;;
+    dump_cleanup fx p skipval c ;;;;
     kvs <-- lift (ns_items c) ;;
     lift (halloc (CDict kvs)) ;;;; ret tt) ;;;;      (* cfg.as_dict() *)
   bracket G_PARENT 1 (ret tt).                       (* dump_using_format *)
@@ -512,7 +527,7 @@ Definition instantiate (fx : bool) (p : parser) (cfg : val) : M val :=
            | None | Some VNone => ret tt
            | Some x =>
                y <-- bracket G_PARENT 1 (bracket G_NESTED 1 (bracket G_INSTANTIATORS 1
-                       (lift (adapt Deser (d_ty d) x)))) ;;
+                       (lift (adapt fx Deser (d_ty d) x)))) ;;
                lift (ns_set c (d_key d) y)
            end) p ;;;;
   ret c.
@@ -665,3 +680,27 @@ Definition guard_class (p : parser) (h : heap) (o : op) : N :=
        | _ => if heap_flat h then 0%N else 2%N
        end.
 Definition guard (p : parser) (h : heap) (o : op) : bool := N.eqb (guard_class p h o) 0.
+
+(* ================================================================================================
+   Entry points outside the heap model (parse_args with a config-file action, default_config_files
+   in get_defaults / format_help / parse_args, list-of-values files, parse_env): only their
+   try/finally skeleton is modelled — the nest of regions the call enters before the body that may
+   raise.  What they do to the heap is not modelled; the correspondence checks that the argument
+   object (argv list / environ dict) is unchanged.
+   ============================================================================================== *)
+Fixpoint regions {A} (gs : list nat) (body : M A) : M A :=
+  match gs with
+  | [] => body
+  | g :: r => bracket g 1 (regions r body)
+  end.
+Definition aux_regions (entry : N) : list nat :=
+  match entry with
+  | 0%N => [G_ARGPARSE_NS; G_PARENT; G_LENIENT; G_PATHDIR; G_CWD; G_PARENT; G_LOADMODE]  (* parse_args(["--cfg", file, ...]): patch_namespace, parser_context, ActionConfigFile.apply_config under change_to_path_dir *)
+  | 1%N => [G_PATHDIR; G_CWD; G_PARENT; G_LOADMODE]                                      (* get_defaults with default_config_files *)
+  | 2%N => [G_PARENT; G_DEFCACHE; G_PATHDIR; G_CWD; G_PARENT; G_LOADMODE]                (* format_help: parser_context(parent_parser, defaults_cache) around get_defaults *)
+  | 3%N => [G_ARGPARSE_NS; G_PARENT; G_LENIENT; G_PATHDIR; G_CWD; G_PARENT; G_LOADMODE]  (* parse_args([]) with default_config_files *)
+  | 4%N => [G_ARGPARSE_NS; G_PARENT; G_LENIENT; G_PATHDIR; G_CWD]                        (* List[int] with enable_path: adapt_typehints under change_to_path_dir(list_path) *)
+  | _ => [G_PARENT; G_LENIENT]                                                            (* parse_env *)
+  end.
+Definition aux_run (entry : N) (fails : bool) : M unit :=
+  regions (aux_regions entry) (if fails then fail else ret tt).
